@@ -1860,6 +1860,7 @@ func (c *DnsController) evictIdleDnsForwarders(now time.Time) {
 	nowNano := now.UnixNano()
 	idleNano := c.dnsForwarderIdleTTL.Nanoseconds()
 	var toClose []DnsForwarder
+	var toRetire []*cachedDnsForwarder
 
 	c.dnsForwarderCache.Range(func(key, value any) bool {
 		k, ok := key.(dnsForwarderKey)
@@ -1889,10 +1890,19 @@ func (c *DnsController) evictIdleDnsForwarders(now time.Time) {
 		}
 
 		if c.dnsForwarderCache.CompareAndDelete(k, entry) {
-			toClose = append(toClose, entry.forwarder)
+			toRetire = append(toRetire, entry)
 		}
 		return true
 	})
+
+	// Close through retire(): a user that loaded the entry before it left the
+	// cache either sees retired in beginUse and retries on a fresh forwarder,
+	// or is already in flight and closes the forwarder from its endUse.
+	for _, entry := range toRetire {
+		if err := entry.retire(); err != nil && c.log != nil {
+			c.log.WithError(err).Debugln("failed to close idle dns forwarder")
+		}
+	}
 
 	for _, forwarder := range toClose {
 		if forwarder == nil {
